@@ -79,6 +79,13 @@ type c12case struct {
 	// package entry points: the default logger is a CHILD whose level is the one of the cell while its root sits at the
 	// opposite end (Off when the child admits, Always when it does not)
 	DefChild bool `json:"default_logger_is_a_child_of_a_root_at_the_opposite_level,omitempty"`
+	// the logger is an ordinary child of a logger that was made with a log/slog handler among the arguments of New
+	HandlerParent bool `json:"child_of_a_logger_made_with_a_handler_argument,omitempty"`
+	// the call carries two attributes of an application type that implements the Attr interface by VALUE and cannot be
+	// compared with == (a func field); their keys sort next to each other
+	UserAttrs bool `json:"two_uncomparable_user_attrs_with_adjacent_keys,omitempty"`
+	// the logger has registered context keys, the context holds values for them and is already cancelled (the shutdown path)
+	DoneCtxKeys bool `json:"context_keys_and_a_cancelled_context,omitempty"`
 }
 
 // muteW takes nothing and reports no error either.
@@ -303,8 +310,22 @@ func c12enumerate() []c12case {
 			out = append(out, x)
 		}
 	}
+	// round 12: a child of a handler-made logger, application-defined attributes that cannot be compared, registered
+	// context keys with a cancelled context (rotating: both parities of the quick sample see all three kinds)
+	d = 0
+	for _, b := range base {
+		if b.Format == "json" && b.Admit {
+			xs := []c12case{b, b, b}
+			xs[d%3].HandlerParent, xs[(d+1)%3].UserAttrs, xs[(d+2)%3].DoneCtxKeys = true, true, true
+			out = append(out, xs...)
+			d++
+		}
+	}
 	return out
 }
+
+// c12userAttrs: the call of this probe process carries two application-defined attributes
+var c12userAttrs bool
 
 type c12result struct {
 	Returned bool   `json:"returned"`
@@ -385,6 +406,10 @@ func c12exec(c *Ctx, out string) {
 	}
 	var lgL slog.Logger = slog.New("c12")
 	lg := lgL.Root()
+	if cs.HandlerParent {
+		lg = slog.New("made-with-a-handler", stdslog.NewTextHandler(io.Discard, nil)).Root().New("c12")
+		lgL = lg
+	}
 	if cs.Kind == "child" {
 		lg = lg.New("kid")
 	}
@@ -418,7 +443,7 @@ func c12exec(c *Ctx, out string) {
 		lg.SetErrorWriter(f)
 		lg.RemoveErrorWriter(f)
 	}
-	if cs.NilCtxKeys {
+	if cs.NilCtxKeys || cs.DoneCtxKeys {
 		lg.SetContextKeys("rid", "uid")
 	}
 	switch cs.Format {
@@ -475,6 +500,12 @@ func c12exec(c *Ctx, out string) {
 	if cs.NilCtxKeys {
 		ctx = nil
 	}
+	if cs.DoneCtxKeys {
+		cctx, cancel := context.WithCancel(context.WithValue(context.WithValue(ctx, "rid", "r-1"), "uid", "u-7")) //nolint:staticcheck // string keys are what the library documents
+		cancel()
+		ctx = cctx
+	}
+	c12userAttrs = cs.UserAttrs
 	if cs.NoColours {
 		slog.SetLevelColors(sev, color.NoColor, color.NoColor)
 	}
@@ -511,6 +542,9 @@ func c12exec(c *Ctx, out string) {
 
 func c12call(lg *slog.Entry, entry string, sev slog.Level, std stdslog.Level, ctx context.Context, huge bool) {
 	args := []any{"k", 1, "why", "because"}
+	if c12userAttrs {
+		args = append(args, c07lazyAttr{"tags.a", func() any { return "x" }}, c07lazyAttr{"tags.b", func() any { return "y" }})
+	}
 	if huge {
 		for i := 0; i < 548; i++ {
 			args = append(args, fmt.Sprintf("k%03d", i), i)
